@@ -53,7 +53,7 @@ def main():
             print("HARNESS-ERROR cannot create worktree:", o)
             return 2
     # bring the worktree to /repo's HEAD, unpatched
-    sh("git checkout -q -- . && git clean -fdq -e target", cwd=wt)
+    sh("git reset -q --hard && git clean -fdq -e target", cwd=wt)
     sh(f"git checkout -q --detach {head}", cwd=wt)
     # refresh the simulator copy (keeps target/)
     if live:
@@ -69,6 +69,7 @@ def main():
             # made against an earlier HEAD of /repo: merge it (fails only where it overlaps a later commit)
             rc, o = sh(f"git apply -3 {os.path.abspath(patch)} && git reset -q", cwd=wt)
         if rc != 0:
+            sh("git reset -q --hard", cwd=wt)
             print("HARNESS-ERROR patch does not apply:", o[:400])
             return 2
     res, worst = {}, 0
@@ -96,7 +97,7 @@ def main():
                 worst = 2
                 print(o[-600:])
     finally:
-        sh("git checkout -q -- . && git clean -fdq -e target", cwd=wt)
+        sh("git reset -q --hard && git clean -fdq -e target", cwd=wt)
     print("SUMMARY " + json.dumps({"patch": patch, "results": res}))
     return worst
 
